@@ -8,11 +8,35 @@ HERE = os.path.dirname(os.path.dirname(os.path.abspath(__file__)))
 PY = "/venv/bin/python"
 
 CHECKS = {
+    "C01": dict(
+        technique="runtime reference-model monitor: generated well-formed calls on the real einx vs. an independent loop-notation interpreter; argument sanitizer on",
+        text="Exploration: thousands of generated calls per run over all value operations, description features and numpy backend selections; every returned tensor is compared element-wise with a deliberately naive for-loop interpreter of the notation. Held = no disagreement, no rejection of a well-formed call and no argument modification on what was generated (feature and operation counts are in the evidence).",
+        note="Trusts the reference interpreter R (self-tested against numpy one-liners in vf.selftest) and the generator's well-formedness table (DESIGN.md Appendix A). Only numpy backends are reachable.",
+        ref="3/C01",
+    ),
+    "C02": dict(
+        technique="runtime reference-model monitor: solve_axes/solve_shapes/matches on generated systems vs. brute-force + propagation integer solver",
+        text="Exploration: random expression systems (consistent, perturbed, under-determined, non-positive and >=2**31 sizes) are solved by the real einx and by an independent brute-force enumerator (soundness, ambiguity) and a propagation solver (completeness, big integers).",
+        note="Trusts the brute-force bounds (positive integers bounded by the dimension an axis sits in) and the propagation reading of 'follows by substitution' (DESIGN.md C02).",
+        ref="3/C02",
+    ),
+    "C09": dict(
+        technique="runtime write sanitizer: before/after snapshots of every argument + read-only buffers, across layouts, cached/uncached calls and wrong-arity calls",
+        text="Exploration: every argument of every generated call (all families, six memory layouts, cached and uncached, graph=True, solve_*/matches, mutable keyword containers, surplus tensors) is snapshotted (bytes, shape, dtype, strides, flags) before and after; read-only inputs turn write attempts into errors.",
+        note="Trusts numpy's writeable flag and byte snapshots; the documented in-place target of *_at (and aliases of it) is exempt.",
+        ref="3/C09",
+    ),
     "C12": dict(
         technique="runtime monitor on the real parser: exhaustive token-sequence enumeration + fuzz, round-trip/invariance oracles",
         text="Exploration: every token sequence up to the bound and tens of thousands of random strings are fed to the real parse_op and to public operations; oracles are relational (re-print/re-parse, padding invariance) plus an exception-class and message-shape monitor. Held = no refuting event on the enumerated space (exhaustive to the bound) and the sampled remainder.",
         note="Trusts: harness-side structural dump (ignores ellipsis ids / unnamed-axis identity), the space-insensitive-gap rule stated in DESIGN.md C12.",
         ref="3/C12",
+    ),
+    "C14": dict(
+        technique="runtime reference-model monitor: set_at/add_at/subtract_at results vs. per-element contribution multisets from an explicit loop over all index combinations",
+        text="Exploration: generated update calls with forced duplicate addresses and axes missing from target/coordinates/updates; for every target element the reference loop yields the multiset of contributions; add/subtract must equal original +/- sum, set must hold one of the competing values, untouched elements keep their value, get_at reads back what set_at wrote; coordinate/update tensors are guarded by the write sanitizer.",
+        note="Trusts the reference loop (R) and integer-valued data for exact sums; out-of-range/negative coordinates are not generated.",
+        ref="3/C14",
     ),
 }
 
